@@ -652,6 +652,8 @@ class AstToCfg(ast.NodeVisitor):
     self.cfgs = {}
 
     self.lexical_scopes = []
+    # Try statements whose handlers are being visited.
+    self._in_handlers_of = set()
 
   def _enter_lexical_scope(self, node):
     self.lexical_scopes.append(node)
@@ -672,7 +674,8 @@ class AstToCfg(ast.NodeVisitor):
   def _get_enclosing_except_scopes(self, stop_at):
     included = []
     for node in reversed(self.lexical_scopes):
-      if isinstance(node, ast.Try) and node.handlers:
+      if (isinstance(node, ast.Try) and node.handlers and
+          node not in self._in_handlers_of):
         included.extend(node.handlers)
       if isinstance(node, stop_at):
         break
@@ -939,6 +942,10 @@ class AstToCfg(ast.NodeVisitor):
     self._exit_lexical_scope(node)
 
     if node.handlers:
+      # The handlers are no longer guarded by the handlers of this statement,
+      # but jumps inside them still go through its finally block.
+      self._enter_lexical_scope(node)
+      self._in_handlers_of.add(node)
       # Using node would be inconsistent. Using the first handler node is also
       # inconsistent, but less so.
       block_representative = node.handlers[0]
@@ -948,6 +955,8 @@ class AstToCfg(ast.NodeVisitor):
         self.visit(block)
       self.builder.new_cond_branch(block_representative)
       self.builder.exit_cond_section(block_representative)
+      self._in_handlers_of.discard(node)
+      self._exit_lexical_scope(node)
 
     if node.finalbody:
       self.builder.enter_finally_section(node)
